@@ -3,6 +3,7 @@
    AstRewriter.visit: the bookkeeper registered for the path is replaced; the old one's keys are removed from the class-level
    tables (unless a single function of the file is being rewritten, or collection is off), the new one's are added.
    remove_first : the removal happens before the addition (true) or after it (false)  -- from ast_rewriter.py, gen/BookOrder.v
+   remove_old_mid : the old bookkeeper's lines are cleared from the line table of its own module id (true)  -- likewise
    No proofs in this file. *)
 From Coq Require Import List NArith Bool.
 Import ListNotations.
@@ -25,6 +26,7 @@ Definition has_line (l : N) (t : list (N * N)) : bool := existsb (fun p => N.eqb
 
 Section Hist.
 Variable remove_first : bool.
+Variable remove_old_mid : bool.                     (* the old bookkeeper is removed under its own module id (true) or under the new one's (false) *)
 Variable gc : bool.                                 (* AstRewriter.gc_bookkeeping *)
 
 Definition remove (s : st) (o : bk) (mid : N) : st :=
@@ -46,7 +48,8 @@ Definition step (s : st) (o : op) : st :=
   match old with
   | Some ob =>
       if collects (o_kind o) then
-        if remove_first then add (remove s0 ob mid) n mid else remove (add s0 n mid) ob mid
+        let rmid := if remove_old_mid then b_mid ob else mid in
+        if remove_first then add (remove s0 ob rmid) n mid else remove (add s0 n mid) ob rmid
       else add s0 n mid
   | None => add s0 n mid
   end.
